@@ -17,7 +17,7 @@ fn pick<'a>(rng: &mut StdRng, xs: &[&'a str]) -> &'a str {
 pub fn program(rng: &mut StdRng, family: usize) -> (&'static str, String) {
     let i = |rng: &mut StdRng| pick(rng, &["-1", "0", "1", "2", "3", "4", "5", "32767", "-32768"]).to_string();
     let d = |rng: &mut StdRng| pick(rng, &["0", "1", "-1", "2", "7"]).to_string();
-    match family % 25 {
+    match family % 26 {
         0 => ("ref-null", format!(
             "PROGRAM P\nVAR x : INT := 5; y : INT; r : REF_TO INT; k : INT := {}; END_VAR\nIF k > 0 THEN r := REF(x); END_IF;\nr^ := r^ + INT#1;\ny := r^;\nIF k > 2 THEN r := NULL; END_IF;\ny := y + r^;\nEND_PROGRAM\n", i(rng))),
         1 => ("ref-struct", format!(
@@ -70,6 +70,8 @@ pub fn program(rng: &mut StdRng, family: usize) -> (&'static str, String) {
             "FUNCTION Swap : BOOL\nVAR_IN_OUT a : INT; b : INT; END_VAR\nVAR t : INT; END_VAR\nt := a; a := b; b := t + a;\nSwap := a > b;\nEND_FUNCTION\nPROGRAM P\nVAR x : INT := {}; arr : ARRAY[0..2] OF INT; ok : BOOL; k : INT := 1; END_VAR\nok := Swap(a := x, b := x);\nok := Swap(a := arr[k], b := arr[k - INT#1]);\nok := Swap(a := arr[k + x], b := x);\nEND_PROGRAM\n", i(rng))),
         23 => ("array-of-fb", format!(
             "FUNCTION_BLOCK Cell\nVAR_INPUT x : INT; END_VAR\nVAR_OUTPUT y : INT; END_VAR\ny := y + x;\nEND_FUNCTION_BLOCK\nPROGRAM P\nVAR cells : ARRAY[0..2] OF Cell; k : INT := {}; s : INT; END_VAR\ncells[k](x := INT#1);\ns := cells[0].y + cells[1].y + cells[2].y;\nk := k + INT#1;\nEND_PROGRAM\n", d(rng))),
+        24 => ("en-eno", format!(
+            "FUNCTION Work : INT\nVAR_INPUT EN : BOOL; a : INT; END_VAR\nVAR_OUTPUT ENO : BOOL; END_VAR\nWork := INT#100 / a;\nEND_FUNCTION\nFUNCTION Outer : INT\nVAR_INPUT n : INT; END_VAR\nVAR v : INT; ok : BOOL; END_VAR\nv := n + INT#1;\nOuter := Work(EN := n > INT#1, a := n, ENO => ok);\nv := v + Outer;\nIF NOT ok THEN v := v + n; END_IF;\nOuter := v;\nEND_FUNCTION\nFUNCTION_BLOCK Holder\nVAR_TEMP tmp : INT; END_VAR\nVAR keep : INT; ok : BOOL; END_VAR\nMETHOD PUBLIC Run : INT\nVAR_INPUT n : INT; END_VAR\nVAR loc : INT; END_VAR\nloc := n;\nRun := Work(EN := n < INT#0, a := n, ENO => ok);\nloc := loc + Run;\nRun := loc;\nEND_METHOD\ntmp := Work(EN := keep > INT#2, a := keep, ENO => ok);\nkeep := keep + tmp + INT#1;\nEND_FUNCTION_BLOCK\nPROGRAM P\nVAR y : INT; k : INT := {}; h : Holder; END_VAR\ny := Outer(n := k);\nh();\ny := y + h.Run(n := k);\nk := k - INT#1;\nEND_PROGRAM\n", i(rng))),
         _ => ("deep-expression", {
             let n = [10usize, 200, 2000][rng.gen_range(0..3)];
             let mut e = String::from("x");
